@@ -365,6 +365,26 @@ pub fn run(ctx: &Ctx) -> i32 {
         rep
     });
     let mut rep = rep;
+    // the repository's own rule files x generated documents and their own (mutated) examples
+    {
+        let mut rng = Rng::new(ctx.seed, "C01-corpus", 0);
+        for cr in crate::corpus::load() {
+            let Some(ast) = &cr.ast else {
+                rep.count("corpus.not_covered_by_harness_reader");
+                continue;
+            };
+            rep.count("corpus.rules");
+            let leaves = gen::collect_leaves(ast);
+            let mut docs: Vec<DVal> = ast.tp.iter().chain(ast.tn.iter()).cloned().collect();
+            for _ in 0..ctx.size(40, 400) {
+                docs.push(gen::gen_doc(&mut rng, &leaves));
+            }
+            // the emitted text of the harness's reading (not the file) so that shrinking works
+            if let Some(text) = ast.to_text() {
+                check_rule(&mut rep, ast, &text, &docs, &cfg);
+            }
+        }
+    }
     crate::regress::replay_witnesses(ctx, &mut rep);
     let (s0, s1) = (rep.get("stratum.S0_rules"), rep.get("stratum.S1_rules"));
     if s0 * 10 < (s0 + s1) * 7 {
